@@ -23,26 +23,38 @@ import shutil
 import tempfile
 
 from ..lib.common import Ctx, MachineryError, repo_python_path
+from . import c20_reg
 
 MANIFEST = {
     "engine": "E8-Typing",
-    "technique": "Lean 4 proofs over an executable model of typing.py (restricted numbers/strings, range/timedelta/SecretStr/Decimal codecs) "
-                 "+ regenerated operator/handler/regex tables + differential correspondence + independent oracle through real parsers",
+    "technique": "Lean 4 proofs over an executable model of typing.py (restricted numbers/strings, the type registry with sorted-restriction keys, register_type / "
+                 "get_registered_type / RegisteredType.deserializer, the registered-type branch of adapt_typehints for any handler, range/timedelta/base64/UUID/complex/"
+                 "SecretStr/Decimal codecs, YAML text safety) + regenerated operator/handler/regex tables and normalised source statements (17 `C20_src_*_tie`) "
+                 "+ differential correspondence (values, texts, creation/registration histories) + independent oracles through real parsers "
+                 "(acceptance predicate, round trips incl. values generated from look-alike texts, immunity to later edits of the caller's restriction list)",
     "text": "Theorems in lean/Jap/Props/C20.lean prove for all inputs: a restricted number type accepts v iff v denotes a number of the base type "
             "and the and/or-joined comparisons hold, returns that number, and casting again is the identity (C20_num_iff, C20_num_idem, "
-            "C20_num_int_exact); restricted strings accept exactly the matched texts (C20_str_iff); the range and timedelta codecs round-trip "
-            "for every range (step != 0) and every normalised timedelta (C20_range_rt, C20_td_rt); SecretStr serialisation is constant "
-            "(C20_secret); Decimal round-trips under an exact serializer (C20_decimal_rt; today's `float` serializer is the open finding). "
-            "The model is tied to /repo by Gen/Registered (operators, predefined types, handler names, regex literals compared by `decide`) "
-            "and by correspondence on exhaustive small restriction sets and generated texts; the round trip of bytes/bytearray/UUID/complex/"
-            "pathlib is checked on the real code only.",
-    "level_note": "Trusted: Lean kernel; axioms propext/Quot.sound/Classical.choice; the extractor; the correspondence harness. float(int)/float(str) "
+            "C20_num_int_exact; empty restriction lists, NonNegativeInt/PositiveInt/unit intervals, nan/inf/zero/subnormal tables); the outcome does not depend on the "
+            "order of the restrictions and every class handed out by the registry validates exactly the restrictions stated in that call, the same name and key give the "
+            "same class, another name is refused, existing classes are never changed by later creations or by edits of the caller's list (C20_num_perm, C20_key_sound, "
+            "C20_create_sound/_same_class/_other_name/_frame/_ignores_later_mutation); restricted strings accept exactly the matched texts (C20_str_iff); "
+            "register_type semantics (lookup, conflict, no-op, override) and, for ANY serializer/deserializer pair with deser . ser = id, parse(dump(v)) = v through the "
+            "registered-type branch (C20_registered_rt, instantiated for range, timedelta, bytes, UUID); the range, timedelta, base64, UUID and complex codecs round-trip "
+            "for every value; serialised texts are read back as strings or quoted (C20_text_safe, C20_text_plain_*); SecretStr serialisation is constant (C20_secret); "
+            "Decimal round-trips under an exact serializer, and through today's `float` serializer ONLY dyadic rationals with denominator dividing 2^1074 survive: every "
+            "decimal whose reduced denominator has a factor 5 is changed (C20_decimal_float_survivors_dyadic, C20_decimal_float_lossy_class; open finding). "
+            "The model is tied to /repo by Gen/Registered (operators, predefined types, handler names, regex literals), Gen/TypingSrc (every statement of the "
+            "transcribed functions) and by correspondence on exhaustive small restriction sets, generated texts and call histories.",
+    "level_note": "Trusted: Lean kernel; axioms propext/Quot.sound/Classical.choice; the extractors; the correspondence harness. float(int)/float(str) "
                   "are modelled as correct rounding (roundDouble) and int(str)/float(str)/strip/\\d on ASCII, all tied by correspondence only. "
                   "timedelta(**floats) is modelled on exact rationals (agrees with CPython for <= 6 fraction digits and fields < 2^53). "
-                  "base64, complex/UUID/pathlib constructors are outside the model (oracle round trips only). Sign of zero not represented.",
+                  "complex parts are repr tokens under float(repr(x)) == x; pathlib constructors are outside the model (oracle round trips only). Sign of zero not represented. "
+                  "In the registry model classes are values (a private copy of the restriction list, as the pinned comprehension builds); object identity of the caller's list "
+                  "is exercised by the aliasing oracle on the real code. The channel between dump and parse is a hypothesis of C20_registered_rt (discharged by C01/C20_text_safe).",
 }
 
 FINDING_DECIMAL = "C20-decimal-via-float"
+FINDING_STR_FLAGS = c20_reg.FINDING_STR_FLAGS
 
 SYMS = [">", ">=", "<", "<=", "==", "!="]
 # the comparisons, written out independently of `operator` / `_operators1`
@@ -796,6 +808,8 @@ def reg_values(kind, rng, n):
         vals = [c(b""), c(bytes(range(256))), c(b"\x00"), c(b"\xff"), c(b"hi"), c(b"a" * 100), c(b"\x00\x00"), c(b"="), c(b"null"), c(b"123")]
         for _ in range(n):
             vals.append(c(bytes(rng.randrange(256) for _ in range(rng.choice([1, 2, 3, 4, 5, 16, 33])))))
+        # values generated from the TEXT side: the base64 text spells a number (any radix) / exponent / boolean / null
+        vals += [c(b) for b in c20_reg.b64_lookalikes(rng, max(12, n))]
         return vals
     if kind == "UUID":
         vals = [uuid.UUID(int=0), uuid.UUID(int=2 ** 128 - 1), uuid.UUID("12345678-1234-5678-1234-567812345678"), uuid.UUID(int=1)]
@@ -881,7 +895,10 @@ def drive(ctx, lines):
 
 def run(ctx: Ctx):
     repo_python_path()
-    ctx.rule = ("restricted numbers: every multiset of 1-2 (thorough 1-3) comparisons over 6 operators x reference values x and/or x int/float, each against a "
+    ctx.rule = ("registries: histories of restricted_number_type / restricted_string_type / register_type / register_type_on_first_use / get_registered_type calls "
+                "(real vs model: class identity, ValueError, handler tables), sorted keys, automatic names; caller-owned restriction lists edited in 9 ways after creation "
+                "(real vs the predicate stated at creation); bytes/bytearray values generated from look-alike base64 texts (numbers in every radix, exponents, booleans, null); "
+                "restricted numbers: every multiset of 1-2 (thorough 1-3) comparisons over 6 operators x reference values x and/or x int/float, each against a "
                 "fixed pool of candidates (numbers around every bound, integral/non-integral floats, booleans, numeric texts, junk, huge ints, nan/inf) - real "
                 "T(v) vs Lean model vs independent predicate, also through a real parser from argv and from a config; restricted strings: predefined + custom "
                 "patterns given as str and as compiled re.Pattern with each of IGNORECASE/VERBOSE/DOTALL/MULTILINE/ASCII x text pool, judged by the ORIGINAL "
@@ -897,11 +914,13 @@ def run(ctx: Ctx):
         "pathlib constructors are not modelled: their round trips are evaluated on the real code only",
         "C20_text_safe/_plain_* speak about the YAML resolvers (engine Scalar, tables regenerated from the live Loader/Dumper); the emitter's analyze_scalar can only add quotes; "
         "the command line does not pass through the YAML loader for registered types",
+        "registry model: restrictions passed the creation-time reference test (modelled separately by refOk); names of created types are private to a history; "
+        "register_type histories use fresh importable classes and plain functions (pydantic registration is outside)",
         "None / 'null' handling of the parser (accepted when the default is None) is outside C20",
         "regex flags are resolved by the translation into the model's Re (case folding, DOTALL, MULTILINE anchors, ASCII \\s, VERBOSE via re._parser) for ASCII subjects; "
         "re.LOCALE, look-around, back-references and non-ASCII subjects (Unicode case folding, Unicode \\w/\\d) are oracle-only",
     ]
-    ctx.lean_build(extractors=["registered", "resolvers"])
+    ctx.lean_build(extractors=["registered", "typing_src", "resolvers"])
     from ..lib import corpus as corpus_mod
 
     corpus = corpus_mod.load(ctx.prop)
@@ -1285,6 +1304,99 @@ def _run(ctx: Ctx, corpus, boost, tmpdir):
     ctx.sample({"range_texts": range_texts[-3:], "td_texts": td_texts[-3:]})
 
     _phase(ctx, "codecs, real side")
+
+    # ================================================================ registries (Core/TypingReg): correspondence + oracles on the real code
+    n_hist = ctx.budget(40, 600) * boost
+    names0 = c20_reg.module_names()
+    for i in range(n_hist):
+        calls = c20_reg.create_history(ctx.rng, ctx.seed * 100003 + i)
+        real = c20_reg.run_create_history(calls)
+        lines.append({"op": "create_hist", "names": names0, "calls": [{"name": c["name"], "base": c["base"], "join": c["join"], "rs": [[s, wire_num(r)] for s, r in c["rs"]]} for c in calls]})
+        expect.append((len(lines) - 1, "hist", (calls, {"r": real})))
+        ctx.count(len(calls))
+        ctx.hist("registry", "restricted_number_type history")
+        if any("id" in o for o in real):
+            ctx.nontrivial(("create_hist", canon(calls)))
+        rs = [(s, r) for c in calls for s, r in c["rs"]][:6]
+        lines.append({"op": "sortkey", "rs": [[s, wire_num(r)] for s, r in rs]})
+        expect.append((len(lines) - 1, "hist", (rs, {"r": [[s, wire_num(r) if not isinstance(r, int) else {"q": [r, 1]}] for s, r in sorted(rs)]})))
+    for i in range(ctx.budget(15, 200)):
+        refs = [ctx.rng.randint(-50, 50) + 7000 * (i + 1) for _ in range(ctx.rng.choice([1, 2, 3]))]
+        rs = sorted((ctx.rng.choice(SYMS), r) for r in refs)
+        base, join = ctx.rng.choice(["int", "float"]), ctx.rng.choice(["and", "or"])
+        try:
+            T = m.restricted_number_type(None, base_of(base), list(rs), join)
+        except ValueError:
+            continue  # the automatic name of another key (sorted differently) is taken
+        lines.append({"op": "autoname", "base": base, "join": join, "rs": [[s, r] for s, r in rs]})
+        expect.append((len(lines) - 1, "hist", (rs, {"name": T.__name__, "expr": T._expression})))
+        ctx.count()
+    # restricted_string_type histories: the key is the pattern text
+    for i in range(ctx.budget(6, 60)):
+        pat = "^c20s%d_%d[a-z]$" % (ctx.seed, i)
+        calls = [{"name": ctx.rng.choice(["C20S%d_%d" % (ctx.seed, i), "C20S%d_%dx" % (ctx.seed, i)]), "pattern": pat, "flags": ctx.rng.choice([[], ["IGNORECASE"], ["DOTALL"]])}
+                 for _ in range(ctx.rng.randint(2, 4))]
+        real, seen = [], {}
+        for c in calls:
+            try:
+                T = m.restricted_string_type(c["name"], compiled_of(c["pattern"], c["flags"]))
+                seen.setdefault(id(T), len(seen))
+                real.append({"id": seen[id(T)], "flags": int(T._regex.flags)})
+            except ValueError:
+                real.append({"err": "ValueError"})
+        lines.append({"op": "str_hist", "names": names0, "calls": [{"name": c["name"], "pattern": c["pattern"], "flags": int(compiled_of(c["pattern"], c["flags"]).flags)} for c in calls]})
+        expect.append((len(lines) - 1, "hist", (calls, {"r": real})))
+        ctx.count(len(calls))
+    # register_type / register_type_on_first_use / get_registered_type histories on fresh classes
+    rh = c20_reg.RegHistory(tmpdir)
+    try:
+        for i in range(ctx.budget(40, 600) * boost):
+            n_cls, calls = c20_reg.gen_reg_history(ctx.rng)
+            real = rh.run(n_cls, calls)
+            lines.append({"op": "reg_hist", "n": n_cls, "calls": c20_reg.wire_reg_calls(calls)})
+            expect.append((len(lines) - 1, "hist", (calls, {"r": real})))
+            ctx.count(len(calls))
+            ctx.hist("registry", "register_type history")
+            if any(o["res"] == "ValueError" for o in real):
+                ctx.nontrivial(("reg_hist", canon(calls)))
+    finally:
+        rh.cleanup()
+    # Decimal through the registered serializer vs decimalRoundTrip
+    import decimal as _decimal
+
+    dser = handler(_decimal.Decimal).serializer
+    for d in c20_reg.decimal_cases(ctx.rng, ctx.budget(60, 1500)):
+        line, real = c20_reg.decimal_line(d, dser)
+        if "err" in real:
+            continue
+        lines.append(line)
+        expect.append((len(lines) - 1, "hist", (str(d), real)))
+        ctx.count()
+    # oracle (real code only): a type is immune to later edits of the caller's restriction list; same name + same key = same class
+    n_alias_viol = 0
+    alias_cases = [c for c in corpus if c.get("kind") == "alias"]
+    alias_cases += [c20_reg.gen_alias_case(ctx.rng, ctx.seed * 100003 + i) for i in range(ctx.budget(60, 900) * boost)]
+    for case in alias_cases:
+        desc = c20_reg.alias_case(case)
+        ctx.count(40)
+        ctx.hist("alias.mutation", case["mutation"])
+        ctx.nontrivial(("alias", case["tag"]))
+        if desc is not None and n_alias_viol < 3:
+            n_alias_viol += 1
+            ctx.violation("restricted number type %s(%s %s), caller's list edited by %s: %s" % (case["base"], case["join"], case["rs"], case["mutation"], desc),
+                          dict(case, kind="alias"))
+    # oracle (real code only): the returned string type validates with the pattern object of this call
+    for pat, f1, f2, texts in c20_reg.STR_FLAG_CASES:
+        for text in texts:
+            case = {"kind": "str-flags", "pattern": pat, "flags1": f1, "flags2": f2, "value": text}
+            desc = c20_reg.str_flags_case(case)
+            ctx.count()
+            if desc is not None:
+                if ctx.is_open(FINDING_STR_FLAGS):
+                    ctx.known(FINDING_STR_FLAGS, "restricted_string_type(%r): %s" % (pat, desc))
+                else:
+                    ctx.violation("restricted_string_type(%r): %s" % (pat, desc), case)
+    _phase(ctx, "registries: histories, aliasing oracle")
     # ================================================================ run the model, diff
     model = drive(ctx, lines)
     disagreements = 0
@@ -1326,6 +1438,16 @@ def _run(ctx: Ctx, corpus, boost, tmpdir):
                     if disagreements <= 4:
                         ctx.tie_break("correspondence E8/Scalar (loader tag of a plain serialised text vs resolveLoad) disagrees",
                                       json.dumps({"text": text, "real": tag, "model": got}, ensure_ascii=True)[:600])
+            elif kind == "hist":
+                head, real = payload
+                if lines[idx]["op"] == "reg_hist":
+                    for o in got.get("r", []):
+                        o["st"]["u"] = sorted(o["st"]["u"])
+                if canon(real) != canon(got):
+                    disagreements += 1
+                    if disagreements <= 4:
+                        ctx.tie_break("correspondence E8 (%s: typing.py registries vs Lean model) disagrees" % lines[idx]["op"],
+                                      json.dumps({"input": lines[idx], "real": real, "model": got}, ensure_ascii=True, default=str)[:1800])
             elif kind == "secret":
                 if got.get("s") != str(m.SecretStr("hunter2")):
                     disagreements += 1
@@ -1606,6 +1728,14 @@ def replay_case(b, quiet=False):
         say("text %r: dump/load -> %r; read plain -> %r" % (t, back, plain))
         must = b["type"] in ("range", "uuid", "complex") or (b["type"] == "timedelta" and " day" in t) or (b["type"] == "bytes" and t.endswith("="))
         return not (isinstance(back, str) and back == t) or (must and not isinstance(plain, str))
+    if kind == "alias":
+        desc = c20_reg.alias_case(b)
+        say("caller's list edited by %s: %s" % (b["mutation"], desc))
+        return desc is not None
+    if kind == "str-flags":
+        desc = c20_reg.str_flags_case(b)
+        say(desc)
+        return desc is not None
     if kind == "b64-pair":
         return real_b64_dec(b["s"], bytearray) != real_b64_dec(b["s"])
     if kind == "secret":
